@@ -33,7 +33,7 @@ func init() {
 				"commit_le": 20, "commit_be": 20, "rollback_then_overwrite": 5, "wal_restart": 5,
 				"shrink_across_block": 3, "shrink_within_cached_tail_block": 10, "spilled_beyond_commit": 3,
 				"ckpt_passive": 2, "ckpt_full": 2, "ckpt_restart": 2, "ckpt_truncate": 2, "litefs_ckpt": 2,
-				"ltx_decoded": 100, "no_advance_checked": 20,
+				"ltx_decoded": 100, "no_advance_checked": 20, "switch_to_rollback": 20,
 			}
 		},
 	})
@@ -331,5 +331,53 @@ func runC03(c *core.Case) {
 		if i == 1 {
 			c.Sample(map[string]any{"page_size": ps, "big_endian": bigEndian, "program": spec, "pos_after": out.Pos.String()})
 		}
+	}
+	// epilogue of every third history: the application switches the database
+	// back to a rollback-journal mode (checkpoint, log and index deleted, page 1
+	// rewritten through a journal) and goes on writing
+	if c.Index%3 == 0 && !c.Violated() {
+		mode := pick(c, []string{"delete", "truncate", "persist"})
+		prev, oldImg := mon.PosOf(n, "db"), d.M
+		res := conn.SwitchToRollback(mode)
+		ctx := fmt.Sprintf("switch wal->%s (%d pages)", mode, d.M.PageN)
+		detail := map[string]any{"page_size": ps, "history": history, "switch_to": mode}
+		c.Count("programs", 1)
+		if healthViolations(c, n, ctx, detail) {
+			return
+		}
+		if res.Err != nil {
+			c.Violate("C03/op-refused/"+res.ErrStep, fmt.Sprintf("LiteFS failed a legal SQLite step %q: %v (%s)", res.ErrStep, res.Err, ctx), detail)
+			return
+		}
+		out := judgeLocalTx(c, n, "db", prev, oldImg, d.M, true, ctx, detail)
+		if !out.Advanced && !c.Violated() {
+			c.Violate("C03/commit-not-captured", fmt.Sprintf("position stayed %s although the journal-mode switch rewrote page 1 (%s)", prev, ctx), detail)
+		}
+		judgeSeen(c, n, "db", 1, d.M, ctx, detail)
+		judgeRawChecksum(c, n, "db", ctx, detail)
+		if c.Violated() {
+			return
+		}
+		c.Count("switch_to_rollback", 1)
+		for j := 0; j < 2; j++ {
+			prev, oldImg = mon.PosOf(n, "db"), d.M
+			cur := d.M.PageN
+			spec := pager.RollbackSpec{Mode: mode, Outcome: "commit", NewPageN: cur + uint32(c.Rng.IntN(3)), Dirty: []uint32{1 + uint32(c.Rng.IntN(int(cur)))}}
+			r := conn.RunRollbackTx(spec)
+			ctx := fmt.Sprintf("after switch: journal tx %d (%d->%d)", j, cur, spec.NewPageN)
+			if healthViolations(c, n, ctx, detail) {
+				return
+			}
+			if r.Err != nil {
+				c.Violate("C03/op-refused/"+r.ErrStep, fmt.Sprintf("LiteFS failed a legal SQLite step %q: %v (%s)", r.ErrStep, r.Err, ctx), detail)
+				return
+			}
+			judgeLocalTx(c, n, "db", prev, oldImg, d.M, true, ctx, detail)
+			judgeRawChecksum(c, n, "db", ctx, detail)
+			if c.Violated() {
+				return
+			}
+		}
+		c.Distinct(fmt.Sprintf("switch/ps%d/%s", ps, mode))
 	}
 }
